@@ -40,14 +40,20 @@ ID = 'C19'
 LEVEL = 'exploration'
 TECHNIQUE = ('bounded exhaustive enumeration of partitions x sample sizes x choices x every answer of the owned sampler '
              '(DataFrame.sample seam) on the real choice-set generator, against a plain-Python reference of the protocol '
-             'and of the logit / nested / cross-nested likelihoods')
+             'and of the logit / nested / cross-nested likelihoods; the nests handed over in every form (names absent, '
+             'colliding, plain tuple / list); bounded histories of other contexts / generations on the same data frames')
 RULE = ('one case per generated row = (alternative table, partition, size vector, specification, chosen alternative, '
         'answer of the first sampler [, MEV partition, MEV sizes, answer of the second sampler]) and one case per '
         '(generated table, model, parameter point) likelihood comparison. A row is non-trivial when the sampler had a '
         'real choice (more than one possible answer) or the row belongs to a fully sampled table whose likelihood is '
         'compared with the full-choice-set model; distinct = distinct (context, chosen, answers, spec) keys. '
         'Within a context the pairs ((chosen, first answer), second answer) are the full product when <= 48, otherwise a '
-        'diagonal pairing covering every (chosen, first answer) and every second answer at least once.')
+        'diagonal pairing covering every (chosen, first answer) and every second answer at least once. '
+        'Part F: on the tables with a nested model, 8 forms of handing over the nests x 3 multi-nest structures (+ 4 '
+        'single-nest pairs): all pairs on the first two tables of fully sampled contexts (thorough: on all their tables and '
+        'the first two of every other), 3 (6) rotating pairs elsewhere. Part H: the first tables of a context generated again '
+        'inside each of 9 histories (<= 2 earlier, <= 1 later operation on the same frames): all 9 for fully sampled CNL '
+        'contexts (thorough: every fully sampled context, two tables), one (three) rotating history for every other context.')
 ASSUMPTIONS = [
     'the only random source of the generator is pandas.DataFrame.sample called from sampling_of_alternatives.py; the seam '
     'counts its calls, so a bypass (another random source) is reported as a violation, not missed',
@@ -56,6 +62,10 @@ ASSUMPTIONS = [
     'domains are covered at those grid points only',
     'rows of one generated table are independent executions of the protocol; answers of different individuals are not '
     'enumerated as a product across individuals',
+    'generations that belong to the history (not to the context under test) are answered with the first n rows of the '
+    'stratum only; histories use the partition / sizes of the context under test, the next utility specification and nest '
+    'names na / nb; nests with equal names are enumerated for the nested model only (for the cross-nested model the name is '
+    'the column name of the membership degree, so equal names are outside the statement)',
     'likelihoods are compared at relative 1e-10 (+1e-12); rows whose sampled nested/CNL term needs log(0) (a nest with no '
     'sampled MEV member) are out of domain and counted',
 ]
